@@ -98,6 +98,14 @@ pub struct AnnexBFrame {
     pub trail_zeros: u8,
 }
 
+/// Every box type the muxer writes: injected into caller-controlled byte strings and numbers that end up inside
+/// moov / moof (titles, parameter sets, timestamps), where a byte search for a fourcc would find them.
+pub const FOURCC_DICT: [&[u8; 4]; 48] = [
+    b"stco", b"trun", b"mdat", b"moov", b"tfdt", b"moof", b"stsz", b"ftyp", b"mvhd", b"trak", b"tkhd", b"mdia", b"mdhd", b"hdlr", b"minf", b"vmhd",
+    b"smhd", b"dinf", b"dref", b"stbl", b"stsd", b"stts", b"ctts", b"stsc", b"stss", b"udta", b"meta", b"ilst", b"data", b"avcC", b"hvcC", b"av1C",
+    b"vpcC", b"esds", b"dOps", b"mvex", b"trex", b"mfhd", b"traf", b"tfhd", b"avc1", b"hvc1", b"av01", b"vp09", b"mp4a", b"Opus", b"url ", b"co64",
+];
+
 pub fn nal_bytes(hevc: bool, g: &NalGene, tag: u64) -> Vec<u8> {
     let mut nal = Vec::new();
     if hevc {
@@ -109,6 +117,10 @@ pub fn nal_bytes(hevc: bool, g: &NalGene, tag: u64) -> Vec<u8> {
     let body = filler(g.len as usize, tag, g.fill % 4);
     // EPB over header+body so that a zero header byte followed by zeros is handled as well
     nal.extend_from_slice(&body);
+    if g.fill >= 192 {
+        // dictionary: the unit ends with the bytes of a box type (a byte search for a fourcc in the moov must not hit them)
+        nal.extend_from_slice(FOURCC_DICT[(g.fill - 192) as usize % FOURCC_DICT.len()]);
+    }
     epb(&nal)
 }
 
